@@ -99,7 +99,7 @@ PrimStart ==
                IF n.def # None THEN goTests(SetDest(r0, f.dp, n.def))
                ELSE IF ~n.req THEN goGate(r0, TRUE)
                ELSE IF canCatch THEN goGate(SetDest(r0, f.dp, n.catch), TRUE)
-               ELSE goGate(AddIssue(r0, c, Iss(f.ip, "required", DType(n))), FALSE)
+               ELSE goGate(AddIssue(r0, c, RIss(n, f.ip, "required", DType(n))), FALSE)
           ELSE IF Mode = "parse" /\ ~Coercible(n, f.in) THEN
                IF canCatch THEN goGate(SetDest(r0, f.dp, n.catch), TRUE)
                ELSE goGate(AddIssue(r0, c, Iss(f.ip, "coerce", DType(n))), FALSE)
@@ -217,7 +217,7 @@ SliceStart ==
      IN Commit(
           IF absent /\ n.def = None THEN
                IF ~n.req THEN WithTop(Cur, [f EXCEPT !.pc = "ptgate", !.soft = TRUE])
-               ELSE WithTop(AddIssue(Cur, f.ctx, Iss(f.ip, "required", "slice")), [f EXCEPT !.pc = "ptgate"])
+               ELSE WithTop(AddIssue(Cur, f.ctx, RIss(n, f.ip, "required", "slice")), [f EXCEPT !.pc = "ptgate"])
           ELSE go)
 
 SliceElem ==
@@ -245,7 +245,7 @@ PtrStart ==
          child == Frame(Elem(n), f.in, f.ip, Append(f.dp, "*"), IF SwPtrFreshCtx THEN Len(ctxs) + 1 ELSE f.ctx, f.fe)
      IN Commit(
           IF absent THEN
-               IF n.req THEN WithTop(AddIssue(Cur, f.ctx, Iss(f.ip, "not_nil", DType(n))), [f EXCEPT !.pc = "done"])
+               IF n.req THEN WithTop(AddIssue(Cur, f.ctx, RIss(n, f.ip, "not_nil", DType(n))), [f EXCEPT !.pc = "done"])
                ELSE WithTop(Cur, [f EXCEPT !.pc = "done"])
           ELSE Push(WithTop([Cur EXCEPT !.ctxs = Append(ctxs, NewCtx), !.dest = d1], [f EXCEPT !.pc = "done"]), child))
 
@@ -338,6 +338,10 @@ RefDestOf(c) ==
 CatchPathsOf(c) ==
   IF c.mode = "parse" THEN CatchPathsP(c.schema, c.input, <<>>, c.fe)
   ELSE CatchPathsV(c.schema, InitDestOf(c), <<>>, <<>>)
+
+NodePathsOf(c) ==
+  IF c.mode = "parse" THEN NodePathsP(c.schema, c.input, <<>>, c.fe)
+  ELSE NodePathsV(c.schema, InitDestOf(c), <<>>, <<>>)
 
 ValidOf(c, d) ==
   IF c.mode = "parse" THEN ValidP(c.schema, c.input, d, <<>>, c.fe)
